@@ -2,6 +2,8 @@ package fileutils
 
 import (
 	"bufio"
+	"bytes"
+	"io"
 )
 
 // Readln returns a single line (without the ending \n)
@@ -45,6 +47,11 @@ func ReadUntilSemiColon(r *bufio.Reader) (string, error) {
 				lastChar = ln[i]
 			}
 		}
+	}
+	// End of file reached without ';': the pending text is the last record
+	// (the next call reports the end of file), it must not be dropped silently
+	if err == io.EOF && len(bytes.TrimSpace(ln)) > 0 {
+		err = nil
 	}
 	return string(ln), err
 }
